@@ -89,7 +89,15 @@ int cif_packet_create(cif_packet_tp **packet, UChar *names[]) {
                     entry->key_orig = cif_u_strdup(*next);
 
                     if (entry->key_orig == NULL) {
+                        /*
+                         * Release the packet together with all the names: it takes ownership of the normalized
+                         * names (aliased as its keys) and of the original names already copied.
+                         */
+                        entry->key_orig = entry->key;
+                        (*packet)->map.is_standalone = 1;
                         cif_packet_free(*packet);
+                        *packet = NULL;
+                        counter = 0;
                         FAIL(soft, CIF_MEMORY_ERROR);
                     }
                 }
